@@ -635,10 +635,7 @@ var c17UnkTemplates = func() []string {
 		if ph[f.Name] || f.Name == "iif" {
 			continue
 		}
-		if _, ok := funcs.Clone()[f.Name]; !ok && f.Spec != "STU" {
-			continue
-		}
-		if f.Spec == "STU" {
+		if _, ok := funcs.AddExperimentalFuncs(funcs.Clone())[f.Name]; !ok {
 			continue
 		}
 		args := f.Args
@@ -688,7 +685,7 @@ func c17RunUnk(ctx *Ctx, c c17UnkCase) {
 	if c.Known {
 		vars["nope"] = system.Integer(1)
 	}
-	out := evalWith(src, fixtureInput(fixturePatient()), vars)
+	out := evalWith(src, fixtureInput(fixturePatient()), vars, compopts.WithExperimentalFuncs())
 	ctx.Eval(fmt.Sprintf("%s|%v", src, c.Known), len(c.Tpl) > 1 || c.Tpl[0] != "$X", "stage:unknown-variable", fmt.Sprintf("depth:%d", len(c.Tpl)), fmt.Sprintf("known:%v", c.Known))
 	if out.Panic != "" {
 		ctx.Fail("unknown variable: panic "+out.Panic, src)
